@@ -65,12 +65,6 @@ func NewRouter(namespace *models.Namespace) (*Router, error) {
 			return nil, err
 		}
 
-		// if global table rule, use the namespace slice names
-		// TODO: refactor
-		if rule.ruleType == GlobalTableRuleType {
-			rule.slices = sliceNames
-		}
-
 		if rule.ruleType == DefaultRuleType {
 			return nil, fmt.Errorf("[default-rule] duplicate, must only one")
 		}
